@@ -240,6 +240,7 @@ type c12World struct {
 	shards []*miniredis.Miniredis // side A (1 for the plain wrapper, 4 for kv)
 	mrB    *miniredis.Miniredis   // side B
 	cli    *red.Client            // raw go-redis on B
+	admin  []*red.Client          // harness-only clients on the A servers (SCRIPT FLUSH between histories)
 }
 
 func c12NewWorld(nShards int) (*c12World, error) {
@@ -250,6 +251,7 @@ func c12NewWorld(nShards int) (*c12World, error) {
 			return nil, err
 		}
 		w.shards = append(w.shards, s)
+		w.admin = append(w.admin, red.NewClient(&red.Options{Addr: s.Addr()}))
 	}
 	b, err := miniredis.Run()
 	if err != nil {
@@ -262,6 +264,9 @@ func c12NewWorld(nShards int) (*c12World, error) {
 
 func (w *c12World) close() {
 	_ = w.cli.Close()
+	for _, c := range w.admin {
+		_ = c.Close()
+	}
 	for _, s := range w.shards {
 		s.Close()
 	}
@@ -272,6 +277,10 @@ func (w *c12World) reset() {
 	for _, s := range append(append([]*miniredis.Miniredis{}, w.shards...), w.mrB) {
 		s.FlushAll()
 		s.SetTime(c12Base)
+	}
+	// histories start from the same script cache on every server
+	for _, c := range append(append([]*red.Client{}, w.admin...), w.cli) {
+		c.ScriptFlush(context.Background())
 	}
 }
 
@@ -306,6 +315,9 @@ type c12X struct { // reference side context of one call
 	cli   *red.Client
 	mrB   *miniredis.Miniredis
 	addrA string // address the wrapper instance was built for (redis side only)
+	// reissued: a breaker rejection was seen and the call was issued again (a
+	// multi-key kv Del may have been partially executed by the rejected attempt)
+	reissued bool
 }
 
 type c12Entry struct {
@@ -335,7 +347,8 @@ type c12Gen struct {
 	keys []string
 	mrB  *miniredis.Miniredis
 	kv   bool
-	node redis.ClosableNode
+	// blockEmpty: remaining budget of blocking pops on an empty list (1 s each, both sides in parallel)
+	blockEmpty *int
 }
 
 // key picks a key: mostly one whose current type on side B is want (or absent),
@@ -379,6 +392,17 @@ func (g *c12Gen) existing(want string) string {
 	return fit[g.r.Intn(len(fit))]
 }
 
+// emptySet: miniredis can hold a set key without members (SINTERSTORE/SDIFFSTORE
+// with an empty result) and its SRANDMEMBER/SPOP then panic inside the
+// in-process server; such keys are not used for the random-member commands.
+func (g *c12Gen) emptySet(k string) bool {
+	if !g.mrB.Exists(k) || g.mrB.Type(k) != "set" {
+		return false
+	}
+	ms, _ := g.mrB.Members(k)
+	return len(ms) == 0
+}
+
 func (g *c12Gen) anyKey() string { return g.keys[g.r.Intn(len(g.keys))] }
 
 func (g *c12Gen) keysN(want string, lo, hi int) []string {
@@ -399,9 +423,9 @@ var (
 func (g *c12Gen) val() string    { return c12Vals[g.r.Intn(len(c12Vals))] }
 func (g *c12Gen) member() string { return c12Members[g.r.Intn(len(c12Members))] }
 func (g *c12Gen) field() string  { return c12Fields[g.r.Intn(len(c12Fields))] }
-func (g *c12Gen) idx() int64     { return int64(g.r.Intn(11) - 5) }   // -5..5 (negative indexes, reversed ranges)
-func (g *c12Gen) score() int64   { return int64(g.r.Intn(14) - 3) }   // -3..10
-func (g *c12Gen) small() int64   { return int64(g.r.Intn(9) - 3) }    // -3..5
+func (g *c12Gen) idx() int64     { return int64(g.r.Intn(11) - 5) } // -5..5 (negative indexes, reversed ranges)
+func (g *c12Gen) score() int64   { return int64(g.r.Intn(14) - 3) } // -3..10
+func (g *c12Gen) small() int64   { return int64(g.r.Intn(9) - 3) }  // -3..5
 func (g *c12Gen) fscore() float64 {
 	return []float64{-2.5, -0.5, 0, 0.25, 1, 1.5, 2.75, 3, 7.9, 1e3}[g.r.Intn(10)]
 }
@@ -517,18 +541,19 @@ func c12NewStats() *c12Stats {
 }
 
 type c12Hist struct {
-	m      *vk.M
-	idx    int
-	prefix string // signature prefix: "C12:diff" / "C12:kv:diff"
+	m       *vk.M
+	idx     int
+	prefix  string // signature prefix: "C12:diff" / "C12:kv:diff"
 	eprefix string
-	side   *c12Side
-	w      *c12World
-	g      *c12Gen
-	st     *c12Stats
-	log    []string
-	header string
-	viols  int
-	dead   bool // state diverged: stop the history
+	side    *c12Side
+	w       *c12World
+	g       *c12Gen
+	st      *c12Stats
+	log     []string
+	header  string
+	viols   int
+	sigs    map[string]bool
+	dead    bool // state diverged: stop the history
 }
 
 func (h *c12Hist) desc() string {
@@ -585,8 +610,12 @@ func (h *c12Hist) step(e *c12Entry, form c12Form, cancelled bool) bool {
 	} else {
 		cancelled = false
 	}
-	x := &c12X{ctx: ctx, cli: h.w.cli, mrB: h.w.mrB}
+	x := &c12X{ctx: ctx, cli: h.w.cli, mrB: h.w.mrB, addrA: h.side.servers[0].Addr()}
 	callArgs := args
+	var finish func(got []any, gotErr error) (bool, string)
+	if e.prepare != nil {
+		callArgs, finish = e.prepare(x, args)
+	}
 	if e.blocking { // first argument is the blocking node of side A
 		callArgs = append([]any{h.side.node}, args...)
 	}
@@ -597,10 +626,10 @@ func (h *c12Hist) step(e *c12Entry, form c12Form, cancelled bool) bool {
 	h.log = append(h.log, opStr)
 
 	var (
-		got    []any
-		gotErr error
-		sigErr string
-		want   []any
+		got     []any
+		gotErr  error
+		sigErr  string
+		want    []any
 		wantErr error
 		refDone chan struct{}
 	)
@@ -619,6 +648,7 @@ func (h *c12Hist) step(e *c12Entry, form c12Form, cancelled bool) bool {
 			// as failures; a rejection is legitimate wrapper behaviour, not a
 			// transparency defect. Re-issue on a fresh instance (fresh breaker).
 			h.st.kinds["breaker_rejections_reissued"]++
+			x.reissued = true
 			h.side.obj = h.side.rebuild()
 			continue
 		}
@@ -641,12 +671,20 @@ func (h *c12Hist) step(e *c12Entry, form c12Form, cancelled bool) bool {
 		h.st.kinds["ctx_cancelled_calls"]++
 	}
 
-	sig := func(class string) string { return h.prefix + ":" + name + ":" + class }
-	if e.custom != nil {
-		ok, detail := e.custom(x, args, got, gotErr)
+	base := strings.TrimSuffix(name, "Ctx") // one signature per method; the form is in the witness
+	sig := func(class string) string { return h.prefix + ":" + base + ":" + class }
+	if e.custom != nil || finish != nil {
+		var ok bool
+		var detail string
+		if finish != nil {
+			ok, detail = finish(got, gotErr)
+		} else {
+			ok, detail = e.custom(x, args, got, gotErr)
+		}
 		if !ok {
 			h.violate(sig("value"), "%s: %s", opStr, detail)
 		}
+		h.st.kinds["result_custom_compared"]++
 	} else {
 		if refDone == nil {
 			want, wantErr = e.ref(x, args)
@@ -697,7 +735,7 @@ func (h *c12Hist) step(e *c12Entry, form c12Form, cancelled bool) bool {
 		a, dup := h.side.snapA(k)
 		b := c12SnapKey(h.w.mrB, k)
 		if dup {
-			h.violate(h.eprefix+":"+name+":key-on-two-shards", "%s: key %q present on more than one shard", opStr, k)
+			h.violate(h.eprefix+":"+base+":key-on-two-shards", "%s: key %q present on more than one shard", opStr, k)
 			h.dead = true
 			return true
 		}
@@ -711,9 +749,21 @@ func (h *c12Hist) step(e *c12Entry, form c12Form, cancelled bool) bool {
 			case a.Val == b.Val:
 				what = "ttl"
 			}
-			h.violate(h.eprefix+":"+name+":"+what, "%s: after the call key %q is [%s] behind the wrapper but [%s] behind go-redis", opStr, k, a, b)
+			h.violate(h.eprefix+":"+base+":"+what, "%s: after the call key %q is [%s] behind the wrapper but [%s] behind go-redis", opStr, k, a, b)
 			h.dead = true // model and system diverged
 			return true
+		}
+	}
+	// miniredis leaves a member-less set key behind S*STORE with an empty result
+	// (Redis deletes it) and later panics on it inside the in-process server:
+	// once compared, such keys are removed on every server (harness normalisation).
+	for _, k := range h.g.keys {
+		if h.g.emptySet(k) {
+			for _, s := range h.side.servers {
+				s.Del(k)
+			}
+			h.w.mrB.Del(k)
+			h.st.kinds["empty_set_keys_normalised"]++
 		}
 	}
 	return true
@@ -721,10 +771,21 @@ func (h *c12Hist) step(e *c12Entry, form c12Form, cancelled bool) bool {
 
 type c12CtxKey struct{}
 
+// violate records a violation once per signature and history (a return-value
+// mismatch that leaves both servers in the same state does not stop the history:
+// the sides are still in step). Three different signatures stop it.
 func (h *c12Hist) violate(sig, format string, a ...any) {
 	h.viols++
+	if h.sigs == nil {
+		h.sigs = map[string]bool{}
+	}
+	if h.sigs[sig] {
+		h.st.kinds["repeated_violations_same_signature_same_history"]++
+		return
+	}
+	h.sigs[sig] = true
 	h.m.Violate(sig, h.desc(), format, a...)
-	if h.viols >= 4 {
+	if len(h.sigs) >= 3 {
 		h.dead = true
 	}
 }
